@@ -28,7 +28,7 @@ var autoCfg = parser.CommandConfig{AutoVarCommands: map[string]parser.AutoVarCom
 	"avk":    {VarName: "VAR_K"},
 }}
 
-const numAutoKinds = 6
+const numAutoKinds = 7
 const numAutoForms = 9
 
 // autoLeaf builds an AutoVar leaf of the given command kind and comparison form on leaf index i.
@@ -45,8 +45,10 @@ func autoLeaf(kind, form, i int) *model.Leaf {
 		call, out, v = fmt.Sprintf("avp1(%d, VAR_Q%d, X)", i, i), fmt.Sprintf("avp1 %d, VAR_Q%d, X", i, i), fmt.Sprintf("VAR_Q%d", i)
 	case 4:
 		call, out, v = `avtxt("hi")`, "avtxt S_Text_0", "VAR_RESULT"
-	default:
+	case 5:
 		call, out, v = fmt.Sprintf("avk(KONST, %d)", i), fmt.Sprintf("avk 7 + 1, %d", i), "VAR_K"
+	default: // arguments with operator characters, incl. the printf verb character
+		call, out, v = fmt.Sprintf("avfix(N %% %d, 100 %%, %% s)", i), fmt.Sprintf("avfix N %% %d, 100 %%, %% s", i), "VAR_RESULT"
 	}
 	lf := &model.Leaf{Kind: machine.KVar, Name: v, AutoSrc: call, AutoOut: out}
 	c := 2 + i%3
@@ -196,7 +198,7 @@ func runC11(tier string) int {
 	r.Assume("command config: fixed var_name, var_name_arg_position 0 and 1, a command without argument list, a constant argument, an inline text argument",
 		"the preamble is an observable command whose text is the statement rendering 'name arg, arg' (C10 checks that rendering rule separately)")
 	return r.Finish(r.Get("evaluations"), r.Get("nontrivial"),
-		"C02's expression trees with 1-2 leaves replaced by AutoVar leaves (6 command kinds x 9 comparison forms, rotated for k>=3) x decorations x 10 condition positions x optimize on/off, plus AutoVar switch operands in 4 contexts, plus AutoVar switch / if / while / do...while statements inside poryswitch cases (colon and brace form, selected directly and through '_'); lockstep exploration (the preamble command, each operand read and each body command are observable events); non-trivial = >= 2 leaves or a switch")
+		"C02's expression trees with 1-2 leaves replaced by AutoVar leaves (7 command kinds incl. arguments containing '%' x 9 comparison forms, rotated for k>=3) x decorations x 13 condition positions x optimize on/off, plus AutoVar switch operands in 4 contexts, plus AutoVar switch / if / while / do...while statements inside poryswitch cases (colon and brace form, selected directly and through '_'); lockstep exploration (the preamble command, each operand read and each body command are observable events); non-trivial = >= 2 leaves or a switch")
 }
 
 func c11Eval(r *harness.Run, sc *model.Script, copts *comp.Opts, desc string, nontrivial bool) {
